@@ -106,11 +106,26 @@ fn check_number(dest: &Dest, elems: &[PoeticElem], spelling: &[u32]) -> Result<(
         Caught::Panic(p) => return Err(Outcome::fail(format!("parse panicked: {}\n{}", p, src))),
         Caught::Budget(_) => return Err(Outcome::fail(format!("parse ran out of fuel\n{}", src))),
     };
-    if crate::adapt::program(&tree) != prog {
-        return Err(Outcome::discard("render_mismatch:tree"));
-    }
     let numeral = poetic_numeral(elems);
     let expected: f64 = numeral.parse().unwrap();
+    if crate::adapt::program(&tree) != prog {
+        // The text was not read as the poetic literal it was rendered from. Whether it still denotes the number its
+        // words spell is decided by running it (what is a literal and what an expression is this property's subject).
+        let (c, out) = exec_rrss(&tree, b"", RLimits { exec_fuel: Some(100), alloc_cap: Some(1_000_000) });
+        let printed = out.stdout_str();
+        let ok = matches!(c, Caught::Done(())) && out.ok() && printed.trim_end_matches('\n').parse::<f64>().map_or(false, |v| ulp_distance(v, expected) <= TOLERANCE_ULP);
+        if !ok {
+            return Err(Outcome::fail(format!(
+                "poetic literal value: the words spell {} but the program prints {:?} (result {:?}); the right-hand side was not parsed as the poetic literal it is: {}\n{}",
+                numeral,
+                printed,
+                out.err,
+                crate::props::c02::first_difference(&prog, &crate::adapt::program(&tree)),
+                src
+            )));
+        }
+        return Err(Outcome::discard("render_mismatch:tree_but_value_agrees"));
+    }
     let digits = numeral.chars().filter(|c| c.is_ascii_digit()).count();
     let has_point = elems.iter().any(|e| matches!(e, PoeticElem::Dot));
     let lit = find_literal(&tree).ok_or_else(|| Outcome::fail(format!("no poetic literal in the parsed tree\n{}", src)))?;
@@ -175,6 +190,8 @@ fn check_number(dest: &Dest, elems: &[PoeticElem], spelling: &[u32]) -> Result<(
         5..=8 => "ulp:5-8",
         _ => "ulp:9-16",
     });
+    add(elems.iter().any(|e| matches!(e, PoeticElem::Word(w) if w.chars().all(|c| c.is_ascii_digit()))), "numeral_as_word");
+    add(matches!(elems.first(), Some(PoeticElem::Word(w)) if ["without", "minus", "not"].contains(&w.to_lowercase().as_str())), "starts_with_operator_word");
     add(digits > 308, "more_than_308_digits");
     add(expected.is_infinite(), "value_overflows_to_infinity");
     add(expected != 0.0 && expected.abs() < f64::MIN_POSITIVE, "subnormal_value");
@@ -246,7 +263,7 @@ impl Prop for C11 {
     }
     fn rule(&self) -> String {
         "numbers: element lists of 1-300 words (random letter words of length 1-25 with multiples of 10 weighted up, apostrophes inside, keywords and aliases in any case, non-ASCII letters), 's/'re suffixes (stacked and \
-         orphan ones hung on a comment), hyphenated parts, periods (several, leading, trailing) and commas anywhere, rendered with random spacing/noise/comments; 4% extreme literals of up to ~430 digits on either side of the period with runs of zero digits (values beyond 10^308, below 10^-308, subnormal, zero); destination a variable, a pronoun, an array element or `rock X like`. \
+         orphan ones hung on a comment), hyphenated parts, periods (several, leading, trailing) and commas anywhere, rendered with random spacing/noise/comments; 3% literals that start with a keyword able to open an expression (without, minus, not, roll, a pronoun, a name) followed by numerals / literal words / names; 4% extreme literals of up to ~430 digits on either side of the period with runs of zero digits (values beyond 10^308, below 10^-308, subnormal, zero); destination a variable, a pronoun, an array element or `rock X like`. \
          strings: line texts of atoms incl. leading/trailing blanks, quotes, parentheses (always closed on the line), comment- and statement-looking text, punctuation, non-ASCII, followed by further lines that must survive. \
          expressions: right-hand sides that start with a literal word or -number (compared with the reference model). \
          non-trivial = >= 2 words or any of {suffix, hyphen, period, length multiple of 10, keyword, non-ASCII}; strings of >= 2 bytes; distinct by case"
@@ -255,6 +272,7 @@ impl Prop for C11 {
     fn assumptions(&self) -> Vec<String> {
         vec![
             "reference value = str::parse::<f64> (correctly rounded, std) of the decimal numeral built by the digit rule; tolerance 0 ulp for integers < 2^53 without period, else 16 ulp (measured maximum in the ulp: labels)".into(),
+            "a numeral inside a poetic literal counts as a word of its number of characters (rrss's rule for every token without blanks or ignorable punctuation; the statement is silent): generated only in the 3% boundary class".into(),
             "poetic strings are bounded to texts whose quotes/parentheses are closed on the line (finding F11, outside the property's quantifier)".into(),
         ]
     }
@@ -273,7 +291,23 @@ impl Prop for C11 {
             2 => Dest::Element(n),
             _ => Dest::Rock(n),
         };
-        match t.weighted(&[56, 28, 12, 4]) {
+        match t.weighted(&[53, 28, 12, 4, 3]) {
+            4 => {
+                // the boundary of the third sentence: a right-hand side that starts with a keyword which could open an
+                // expression (unary minus / not spelled as words, roll, a pronoun, a name) but is neither a literal word
+                // nor `-` + number is a poetic literal, whatever follows (a numeral, a literal word, a name)
+                let first = *t.choose(&["without", "minus", "not", "roll", "pop", "it", "they", "Without", "MINUS", "Not", "Gina", "non"]);
+                let mut elems = vec![PoeticElem::Word(first.to_string())];
+                for _ in 0..1 + t.pick(3) {
+                    let w = *t.choose(&["5", "273", "0", "12", "true", "nothing", "x", "Tommy", "mysterious", "right", "1", "empty", "minus", "42"]);
+                    elems.push(PoeticElem::Word(w.to_string()));
+                    // a period glued to a numeral would join it (`5.` is one number token)
+                    if t.chance(1, 6) && !w.chars().all(|c| c.is_ascii_digit()) {
+                        elems.push(PoeticElem::Dot);
+                    }
+                }
+                Case::Number { dest, elems, spelling: spelling.into_iter().take(4).collect() }
+            }
             0 => Case::Number { dest, elems: literal(t, PoeticCfg { orphan_suffix: true, max_digits_each_side: 300 }), spelling },
             3 => Case::Number { dest, elems: extreme_literal(t), spelling: spelling.into_iter().take(6).collect() },
             1 => {
@@ -328,7 +362,7 @@ impl Prop for C11 {
     fn expected_labels(&self) -> Vec<String> {
         [
             "number", "string", "expression_rhs", "period", "several_periods", "hyphen", "apostrophe_suffix", "apostrophe_in_word", "length_multiple_of_10", "keyword_as_word", "non_ascii",
-            "orphan_suffix", "more_than_308_digits", "value_overflows_to_infinity", "subnormal_value", "long_zero", "more_than_17_digits", "more_than_100_digits", "exact_integer", "inexact_by_some_ulp", "rock_like", "pronoun_dest", "element_dest", "leading_blank", "trailing_blank",
+            "orphan_suffix", "numeral_as_word", "starts_with_operator_word", "more_than_308_digits", "value_overflows_to_infinity", "subnormal_value", "long_zero", "more_than_17_digits", "more_than_100_digits", "exact_integer", "inexact_by_some_ulp", "rock_like", "pronoun_dest", "element_dest", "leading_blank", "trailing_blank",
             "quotes", "parentheses", "empty_text",
         ]
         .iter()
